@@ -614,8 +614,60 @@ func runRound(r *ev.Run, c *ev.Case, round int, mode string, g int) *roundResult
 			}
 		}(ci)
 	}
+	// beside the planned operations: clients that wait for a message code, again and again, and requests with that
+	// code arriving (direct modes). Waiting must neither disturb nor be disturbed by the operations above.
+	var stopWait atomic.Bool
+	var waitsDone atomic.Int64
+	var wwg, waiters sync.WaitGroup
+	if ds, ok := shared.(*shimagent.Server); ok && rng.Intn(2) == 0 {
+		code := byte(rng.Intn(40))
+		for w := 1 + rng.Intn(2); w > 0; w-- {
+			wwg.Add(1)
+			waiters.Add(1)
+			go func() {
+				defer wwg.Done()
+				defer waiters.Done()
+				<-barrier
+				for !stopWait.Load() && !group.Load() {
+					ds.Wait(code)
+					waitsDone.Add(1)
+				}
+			}()
+		}
+		gone := make(chan struct{})
+		go func() { waiters.Wait(); close(gone) }()
+		wwg.Add(1)
+		go func() {
+			defer wwg.Done()
+			<-barrier
+			// requests with that code keep arriving until the last waiter has left
+			for !group.Load() {
+				select {
+				case <-gone:
+					return
+				default:
+				}
+				ds.Broadcast(code)
+				time.Sleep(50 * time.Microsecond)
+			}
+		}()
+	}
 	close(barrier)
 	wg.Wait()
+	stopWait.Store(true)
+	wdone := make(chan struct{})
+	go func() { wwg.Wait(); close(wdone) }()
+	select {
+	case <-wdone:
+		r.Count("waits released during concurrent rounds", int(waitsDone.Load()))
+	case <-time.After(sh.OpTimeout):
+		hangMu.Lock()
+		if hung == "" {
+			hung = "wait/broadcast"
+		}
+		hangMu.Unlock()
+		group.Store(true)
+	}
 	// quiescent phase: unlock if the model could be locked, then a final listing through a fresh handle
 	fin := handles[g].a
 	for _, p := range []byte{0, 1} {
